@@ -519,7 +519,8 @@ var defects = map[string][]string{
 	"c01": {"none", "none", "alter-expires", "alter-readme", "alter-threshold", "alter-rule", "alter-command", "alter-insp-run", "alter-keys",
 		"alter-pubkeys", "drop-signature", "corrupt-signature", "dup-signature", "reorder-signatures", "forged-keyid", "extra-foreign-signature",
 		"verifier-plus-one", "verifier-minus-one", "verifier-empty", "signed-by-others", "link-instead-of-layout",
-		"dup-signature-missing-key", "keyid-collision-history"},
+		"dup-signature-missing-key", "keyid-collision-history",
+		"case-variant-member-evil-first-dsse", "case-variant-member-evil-last-dsse", "case-variant-member-evil-first-legacy", "case-variant-member-evil-last-legacy"},
 	"c05": {"none", "disagree-product-digest", "disagree-product-path", "disagree-material-digest", "disagree-algorithm", "disagree-algorithm-material",
 		"junk-uncounted-badsig", "junk-uncounted-unauthorised", "extra-agreeing-link", "byproducts-differ",
 		"threshold1-disagree-product-digest", "threshold1-disagree-algorithm", "threshold1-agree",
@@ -587,7 +588,8 @@ func genScenario(r *lib.Rng, focus string, idx int) *Scn {
 			sc.Owners = sc.Owners[:1]
 			sc.Verifiers = append([]string{}, sc.Owners...)
 			sc.Expect = "reject"
-		case "case-variant-member-evil-first", "case-variant-member-evil-last":
+		case "case-variant-member-evil-first-dsse", "case-variant-member-evil-last-dsse", "case-variant-member-evil-first-legacy", "case-variant-member-evil-last-legacy":
+			sc.Wrapper = d[strings.LastIndex(d, "-")+1:]
 			sc.Expect = ""
 			sc.ForbidLog = []string{"EVIL"}
 		case "verifier-plus-one":
@@ -1395,7 +1397,7 @@ func applyLayoutDefects(sc *Scn, w *world, r *lib.Rng) {
 		if lm2, err := intoto.LoadMetadata(p); err == nil && !noPrime {
 			_ = lm2.VerifySignature(fake)
 		}
-	case "case-variant-member-evil-first", "case-variant-member-evil-last":
+	case "case-variant-member-evil-first-dsse", "case-variant-member-evil-last-dsse", "case-variant-member-evil-first-legacy", "case-variant-member-evil-last-legacy":
 		// the wrapper object carries its payload member twice, once under the exact name and once under a name that
 		// differs in letter case only (encoding/json matches struct fields case-insensitively, the last match wins):
 		// one holds the genuinely signed layout, the other an unsigned layout whose inspection command is another one.
@@ -1419,7 +1421,7 @@ func applyLayoutDefects(sc *Scn, w *world, r *lib.Rng) {
 		}
 		genuine := string(members[exact])
 		var parts []string
-		if sc.Defect == "case-variant-member-evil-first" {
+		if strings.HasPrefix(sc.Defect, "case-variant-member-evil-first") {
 			parts = []string{fmt.Sprintf("%q: %s", exact, evil), fmt.Sprintf("%q: %s", variant, genuine)}
 		} else {
 			parts = []string{fmt.Sprintf("%q: %s", variant, evil), fmt.Sprintf("%q: %s", exact, genuine)}
